@@ -1,6 +1,7 @@
 import Driver.Common
 import ScionTime.Model.Collect
-open Driver ScionTime.Collect
+import ScionTime.Model.CollectRounds
+open Driver ScionTime.Collect ScionTime.CollectRounds
 
 /-- ops (instants in ns of the bubble's virtual clock):
   col.run <t0> <D> <due>:<ok>:<aware> … [tie=[ids]]
@@ -13,6 +14,11 @@ open Driver ScionTime.Collect
       -> ok <len-panic|refused|accepted> next=<accepted|refused>
   col.guard (e|l)+   enter / leave events on one ReferenceClockClient
       -> ok <accepted|refused|left> …
+  col.rounds <t0> <D> <due>:<ok>:<aware> … / <t0> <D> … / …
+      several calls of MeasureClockOffsets on ONE client (Model/CollectRounds.lean: the product
+      of rounds), round k entered at its t0 (not before the deadline of round k-1), clock ids
+      100·k + position; the senders round k leaves behind keep running during the later rounds.
+      -> ok ret=<t> front=[ids] tail=<untouched> ; ret=… ; … leak=0|deadlock
   The model side runs the transition system `Collect.step` under the schedule that virtual
   time dictates (earliest timer first, equal instants by id); a step that is not enabled in
   the model makes the answer `model-stuck`.
@@ -95,8 +101,110 @@ def guardWellFormed (g : Nat) : List GuardEv → Bool
   | .enter :: rest => guardWellFormed (if g = 0 then 1 else g) rest
   | .leave :: rest => g == 1 && guardWellFormed 0 rest
 
+
+/-! ### several rounds on one client: the product system under the schedule virtual time dictates -/
+
+structure Plan where
+  t0 : Int
+  spec : RoundSpec
+
+/-- environment steps of one round that are not ticks: a measurement call returns, a ctx-aware
+    call is cancelled, the round's deadline timer fires -/
+def pickEnvNoTick (s : St) : Option Choice :=
+  match pickEnv s { tie := [] } with
+  | some (.tick _) => none
+  | c => c
+
+/-- the first round (oldest first) in which `f` finds a step -/
+def firstRound (f : St → Option Choice) : Nat → List Round → Option (Nat × Choice)
+  | _, [] => none
+  | k, r :: rest => match f r.st with
+    | some c => some (k, c)
+    | none => firstRound f (k + 1) rest
+
+def minOf : List Int → Option Int
+  | [] => none
+  | t :: ts => some (ts.foldl min t)
+
+def roundFinished (m : Multi) : Bool := m.rounds.all (fun r => finished r.st)
+
+/-- drive the product; `none` = the model refused a step of the policy -/
+def mauto : Nat → List Plan → Multi → Option Multi
+  | 0, _, m => some m
+  | fuel + 1, plans, m =>
+    match firstRound (fun s => pick s { tie := [] }) 0 m.rounds with
+    | some (k, c) => (mstep m (.inRound k c)).bind (mauto fuel plans)
+    | none =>
+      match firstRound pickEnvNoTick 0 m.rounds with
+      | some (k, c) => (mstep m (.inRound k c)).bind (mauto fuel plans)
+      | none =>
+        match plans with
+        | p :: rest =>
+          if p.t0 = m.now then (mstep m (.start p.spec)).bind (mauto fuel rest)
+          else
+            match minOf ((mtimers m ++ [p.t0]).filter (fun t => decide (m.now < t))) with
+            | some t => (mstep m (.tick t)).bind (mauto fuel plans)
+            | none => none
+        | [] =>
+          if roundFinished m then some m
+          else match minOf (mtimers m) with
+            | some t => (mstep m (.tick t)).bind (mauto fuel [])
+            | none => some m
+
+/-- split the tokens of `col.rounds` at "/" -/
+def splitRounds : List String → List (List String)
+  | [] => [[]]
+  | "/" :: rest => [] :: splitRounds rest
+  | t :: rest => match splitRounds rest with
+    | g :: gs => (t :: g) :: gs
+    | [] => [[t]]
+
+def parsePlan (k : Nat) : List String → Option Plan
+  | t0 :: d :: specs => do
+    let t0 ← parseInt? t0
+    let d ← parseInt? d
+    let senders ← parseSenders (100 * k) specs
+    if senders.all (fun x => decide (t0 ≤ x.due)) then
+      pure { t0 := t0, spec := { deadline := d, senders := senders, ms0 := sentinel senders.length } }
+    else none
+  | _ => none
+
+def parsePlans : Nat → List (List String) → Option (List Plan)
+  | _, [] => some []
+  | k, g :: rest => do
+    let p ← parsePlan k g
+    let ps ← parsePlans (k + 1) rest
+    pure (p :: ps)
+
+/-- round k+1 is entered at or after `max deadline t0` of round k (when its collector has returned) -/
+def plansOrdered : List Plan → Bool
+  | p :: q :: rest => decide (max p.spec.deadline p.t0 ≤ q.t0) && plansOrdered (q :: rest)
+  | _ => true
+
+def fmtRound (r : Round) : String :=
+  let front := (r.st.ms.take r.st.j).map (fun m => (m.id : Int))
+  s!"ret={r.st.retAt} front={fmtIntList front} tail={countTail r.st.ms r.spec.ms0 r.st.j}"
+
+def roundsOp (toks : List String) : String :=
+  match parsePlans 0 (splitRounds toks) with
+  | some plans =>
+    match plans with
+    | [] => "bad-op"
+    | p0 :: _ =>
+      if 0 ≤ p0.t0 ∧ plansOrdered plans then
+        let n := plans.foldl (fun acc p => acc + p.spec.senders.length) 0
+        match mauto (10 * n + 12 * plans.length + 16) plans (minit 0) with
+        | none => "model-stuck"
+        | some m =>
+          if m.rounds.length ≠ plans.length then "model-stuck" else
+          let leak := if m.rounds.all (fun r => r.st.sending.isEmpty && r.st.measuring.isEmpty) then "0" else "deadlock"
+          "ok " ++ " ; ".intercalate (m.rounds.map fmtRound) ++ s!" leak={leak}"
+      else "bad-op"
+  | none => "bad-op"
+
 def stepD (_ : Unit) (toks : List String) : Unit × String :=
   match toks with
+  | "col.rounds" :: rest => ((), roundsOp rest)
   | "col.run" :: t0 :: d :: rest =>
     let tieTok := kv? rest "tie"
     let specs := rest.filter (fun t => !t.startsWith "tie=")
